@@ -75,7 +75,23 @@ def _pattern_test(subject, pat, binds=None):
         # matched against the subject itself
         t1 = ast.Call(ast.Name("isinstance", ast.Load()),
                       [subject, pat.cls], [])
-        t2 = _pattern_test(subject, pat.patterns[0], binds)
+        sp0 = pat.patterns[0]
+        if pat.cls.id in ("tuple", "list") and isinstance(
+                sp0, ast.MatchSequence) and not any(
+                    isinstance(x, ast.MatchStar) for x in sp0.patterns):
+            # `tuple((a, b))`: a tuple of that length, element by element
+            tests = [t1, ast.Compare(
+                ast.Call(ast.Name("len", ast.Load()), [subject], []),
+                [ast.Eq()], [ast.Constant(len(sp0.patterns))])]
+            for i, ep in enumerate(sp0.patterns):
+                t = _pattern_test(ast.Subscript(
+                    subject, ast.Constant(i), ast.Load()), ep, binds)
+                if t is None:
+                    return None
+                if t is not True:
+                    tests.append(t)
+            return ast.BoolOp(ast.And(), tests)
+        t2 = _pattern_test(subject, sp0, binds)
         if t2 is None:
             return None
         return t1 if t2 is True else ast.BoolOp(ast.And(), [t1, t2])
